@@ -271,7 +271,7 @@ class InstanceFile:
         for proxy in self.vmf.by_class['func_instance_io_proxy']:
             proxy.remove()
             self.proxy_pos = Vec.from_str(proxy['origin'])
-            proxy_names.add(proxy['targetname'])
+            proxy_names.add(proxy['targetname'].casefold())
             # First, inputs.
             for out in proxy.outputs:
                 if out.output.casefold() == 'onproxyrelay':
